@@ -45,7 +45,10 @@ def long_items(tier):
     months = [(y, m) for y in range(2014, 2022) for m in range(1, 13)]
     if tier == 'quick':
         months = [(y, m) for (y, m) in months if (y * 12 + m) % 5 == 0]
-    return [(datetime.date(y, m, 1).toordinal(), (366, 735) if tier == 'quick' else (366, 400, 735, 1100)) for y, m in months]
+    out = [(datetime.date(y, m, 1).toordinal(), (366, 735) if tier == 'quick' else (366, 400, 735, 1100)) for y, m in months]
+    # a decade (thorough: also three decades) in one range
+    out += [(datetime.date(2011, 3, 1).toordinal(), (3700,) if tier == 'quick' else (3700, 11000))]
+    return out
 
 
 def per_long_start(item):
